@@ -59,7 +59,7 @@ def check(prop, w, tier, t0):
     nontrivial = set()
     for e in mine:
         p = json.loads(e["rprog"])
-        nh = sum(len(x["holes"]) for x in p["parts"])
+        nh = sum(len(x["holes"]) for x in (p["parts"] or []))
         if nh >= 2 or p["fin"].get("pay"):
             nontrivial.add(lib.case_hash([e["rprog"], e.get("target", "")]))
     for b in v["bad"]:
